@@ -610,6 +610,141 @@ def ops_of(rec):
     return [dict(op=e["op"], o=e["o"], k=e["k"], d=e["d"], p=e["p"], t=i + 1) for i, e in enumerate(rec["log"])]
 
 
+class Tally:
+    """Aggregated outcome of all replayed histories (records are processed in chunks and dropped)."""
+
+    def __init__(self, ck, runner, conf):
+        self.ck, self.runner, self.conf = ck, runner, conf
+        self.total = self.nontrivial = self.hits = self.accesses = self.gc_runs = 0
+        self.flaw_not_observed = 0
+        self.drift_examples = []
+        self.known = {}           # flaw tag -> [count, smallest example]
+        self.unexplained = []     # (ops, uq, glob, exp, kind, on, off, predicted traces)
+        self.n_unexplained = 0
+        self.actions = {}
+        self.seen_sim = set()
+
+    def count_actions(self, rec):
+        names = {"G": "Get", "N": "Name", "S": "Set"}
+        other = {"D": "Define", "X": "Delete", "P": "SetProto", "E": "PreventExt", "F": "Freeze", "W": "Warm"}
+        for e in rec["log"]:
+            a = names[e["op"]] + ("Hit" if e["hit"] else "Miss") if e["op"] in names else other[e["op"]]
+            self.actions[a] = self.actions.get(a, 0) + 1
+
+    def chunk(self, recs):
+        ck = self.ck
+        items, pred = [], {}
+        for i, rec in enumerate(recs):
+            self.count_actions(rec)
+            ops = ops_of(rec)
+            exp = expected_steps(ops, [e["e"] for e in rec["log"]], rec["final"])
+            # the Python mirror of the reference must agree with TLC on every history (it is only used by the shrinker)
+            if norm(exp) != norm(expect_for(ops)):
+                raise vlib.ToolError(f"Python mirror of Shapes.tla disagrees with TLC on {sig_text(ops, rec['uq'], rec['glob'])}")
+            key = str(self.total + i)
+            items.append((key, ops, rec["uq"], rec["glob"], exp))
+            pred[key] = (norm(expected_steps(ops, [e["ce"] for e in rec["log"]], rec["cfinal"])),
+                         norm(expected_steps(ops, [e["ue"] for e in rec["log"]], rec["ufinal"])),
+                         next((e["tag"] for e in rec["log"] if e["tag"]), ""))
+        flawless = {it[0] for it in items if pred[it[0]][0] == norm(it[4]) and pred[it[0]][1] == norm(it[4])}
+        every = self.conf["gc_every"]
+        gc_slice = {k for k in flawless if int(k) % every == vlib.seed() % every}
+        self.gc_runs += len(gc_slice)
+        verdicts = self.runner.judge(items, gc_slice)
+        for (key, ops, uq, glob, exp), rec in zip(items, recs):
+            kind, on, off, counters = verdicts[key]
+            p_on, p_off, tag = pred[key]
+            if kind is not None:
+                if kind.startswith("gc-") or not tag or norm(on) != p_on or norm(off) != p_off:
+                    self.n_unexplained += 1
+                    if len(self.unexplained) < 200:
+                        self.unexplained.append((ops, uq, glob, exp, kind, on, off, (p_on, p_off)))
+                else:
+                    k = self.known.setdefault(tag, [0, None])
+                    k[0] += 1
+                    cand = (len(ops), sig_text(ops, uq, glob), ops, uq, glob, exp, kind, on, off)
+                    if k[1] is None or cand[:2] < k[1][:2]:
+                        k[1] = cand
+                continue
+            if key not in flawless:
+                self.flaw_not_observed += 1   # the selected model variant predicts a failure the code does not show
+                ck.drift += 1
+                if len(self.drift_examples) < 5:
+                    self.drift_examples.append(f"{sig_text(ops, uq, glob)}: model predicts flaw {tag or '?'}, the engine agrees with the reference")
+                continue
+            # counters: step 0 is the prelude, step i the i-th operation
+            mutated = nt = False
+            for i, e in enumerate(rec["log"]):
+                c = counters[i + 1] if len(counters) > i + 1 else None
+                if e["op"] in ("G", "S", "N") and c is not None:
+                    self.accesses += 1
+                    self.hits += c[0]
+                    if c[0] >= 1 and mutated:
+                        nt = True
+                    # (a megamorphic site reports neither a hit nor a miss)
+                    if c[:2] != [1, 0] if e["hit"] else c[0] != 0:
+                        ck.drift += 1
+                        if len(self.drift_examples) < 5:
+                            self.drift_examples.append(f"{sig_text(ops, uq, glob)} @op{i + 1}: model {'hit' if e['hit'] else 'miss'}, "
+                                                       f"counters hit/miss/store={c}")
+                if i >= rec["npre"] and e["op"] not in ("G", "N", "W"):
+                    mutated = True
+            if nt:
+                self.nontrivial += 1
+            if int(key) % 9973 == 3:
+                ck.sample({"history": sig_text(ops, uq, glob), "reference_trace": exp[1:], "ic_counters": counters[1:]})
+        self.total += len(recs)
+
+
+def stream_tlc(cfg, tally, what, chunk_size=4000, **kw):
+    """Runs TLC and feeds its REPLAY records to the tally in chunks while TLC keeps enumerating."""
+    import queue
+    import threading
+    q = queue.Queue(maxsize=4)
+    err = []
+
+    def consumer():
+        while True:
+            recs = q.get()
+            if recs is None:
+                return
+            if not err:
+                try:
+                    tally.chunk(recs)
+                except BaseException as e:   # re-raised in the main thread
+                    err.append(e)
+
+    th = threading.Thread(target=consumer)
+    th.start()
+    buf = []
+    n = [0]
+
+    def on_tagged(tag, o):
+        if tag != "REPLAY":
+            return
+        if kw.get("simulate"):
+            key = json.dumps([o["log"], o["uq"], o["glob"]], sort_keys=True)
+            if key in tally.seen_sim:
+                return
+            tally.seen_sim.add(key)
+        buf.append(o)
+        n[0] += 1
+        if len(buf) >= chunk_size:
+            q.put(list(buf))
+            buf.clear()
+    try:
+        r = vlib.run_tlc(MC, cfg, on_tagged=on_tagged, **kw)
+    finally:
+        if buf:
+            q.put(list(buf))
+        q.put(None)
+        th.join()
+    if err:
+        raise err[0]
+    vlib.tlc_must_pass(r, "MCInlineCache/" + what)
+    return r, n[0]
+
+
 def run(tier, replay=None):
     ck = vlib.Check("C06", tier, "model_checking", replay)
     conf = TIERS[tier]
@@ -618,14 +753,13 @@ def run(tier, replay=None):
     fixes = detect_repairs(runner)
     ck.cov["repairs_present_in_tree"] = fixes
     vlib.log(f"[C06] design flaws still present in the tree: {[f for f in sorted(fixes) if not fixes[f]] or 'none'}")
-    recs = []
     states = trans = 0
     cmds = []
     if conf["design"]:
         # the mechanism model itself: repaired design verified, pinned design refuted (documentation of the flaws)
-        rf = vlib.run_tlc(MC, "MCInlineCache_fixed.cfg", workers=8, timeout=1500)
+        rf = vlib.run_tlc(MC, "MCInlineCache_fixed.cfg", workers=3, timeout=1500)
         vlib.tlc_must_pass(rf, "MCInlineCache/fixed design (Transparent, ShapeDenotes, Refines, TraceEqual)")
-        rp = vlib.run_tlc(MC, "MCInlineCache_pinned.cfg", workers=4, timeout=1500)
+        rp = vlib.run_tlc(MC, "MCInlineCache_pinned.cfg", workers=3, timeout=1500)
         if rp["ok"] or not rp["violation"] or "Invariant" not in rp["violation"]:
             vlib.log(rp["raw_tail"][-1500:])
             raise vlib.ToolError("TLC no longer refutes Transparent/ShapeDenotes on the model of the pinned design")
@@ -633,165 +767,80 @@ def run(tier, replay=None):
                             " ".join(DESIGN_INVS) + " hold", "pinned_design": rp["violation"]}
         cmds += [rf["cmd"], rp["cmd"]]
         vlib.log(f"[C06] design: repaired design verified ({rf['distinct']} states), pinned design refuted: {rp['violation']}")
+    tally = Tally(ck, runner, conf)
     # emission + model gate in one run: TypeOK (well-formedness of the three graphs and of the sites), NoClobber
     # and EsInv (ECMA-262 6.1.7.3 along every step of the reference graph) are checked in every state
     cfg = write_cfg(tier, fixes, conf["H"], conf["wide"], GATE_INVS + ["Emit"])
-    r = vlib.run_tlc(MC, cfg, workers=8, timeout=1700)
-    vlib.tlc_must_pass(r, "MCInlineCache/" + tier)
+    t0 = time.time()
+    r, n_exh = stream_tlc(cfg, tally, tier, workers=3, timeout=2400)
     states += r["distinct"]
     trans += r["states"]
     cmds.append(r["cmd"])
-    recs += [o for tag, o in r["tagged"] if tag == "REPLAY"]
-    vlib.log(f"[C06] TLC {tier}: {r['distinct']} distinct states, {len(recs)} histories, {r['wall']:.0f}s")
-    n_exh = len(recs)
+    vlib.log(f"[C06] TLC {tier}: {r['distinct']} distinct states, {n_exh} histories enumerated and replayed "
+             f"({runner.replays} runs) in {time.time() - t0:.0f}s (TLC {r['wall']:.0f}s)")
     if conf["sim"]:
         num, hsim, depth = conf["sim"]
         cfg = write_cfg(tier + "-sim", fixes, hsim, True, ["Emit"])
-        r = vlib.run_tlc(MC, cfg, workers=1, simulate=num, depth=depth, tseed=vlib.seed(), timeout=900)
-        vlib.tlc_must_pass(r, "MCInlineCache/simulate")
+        r, n_sim = stream_tlc(cfg, tally, "simulate", workers=1, simulate=num, depth=depth, tseed=vlib.seed(), timeout=900)
         cmds.append(r["cmd"])
-        seen = set()
-        for tag, o in r["tagged"]:
-            key = json.dumps([o["log"], o["uq"], o["glob"]], sort_keys=True)
-            if tag == "REPLAY" and key not in seen:
-                seen.add(key)
-                recs.append(o)
-        ck.cov["simulated_histories"] = len(recs) - n_exh
-        vlib.log(f"[C06] TLC -simulate: {len(recs) - n_exh} distinct histories of {hsim} free operations, {r['wall']:.0f}s")
-    if not recs:
+        ck.cov["simulated_histories"] = n_sim
+        vlib.log(f"[C06] TLC -simulate: {n_sim} distinct histories of {hsim} free operations")
+    if tally.total == 0:
         raise vlib.ToolError("TLC emitted no histories")
-    check_coverage(recs, ck, BASE_ACTIONS)
     ck.cov["checker_cmd"] = "; ".join(cmds)
-
-    # the three traces TLC prescribes / predicts; the Python mirror of the reference must agree on every
-    # history (it is only used by the shrinker)
-    items, pred = [], {}
-    for i, rec in enumerate(recs):
-        ops = ops_of(rec)
-        exp = expected_steps(ops, [e["e"] for e in rec["log"]], rec["final"])
-        if norm(exp) != norm(expect_for(ops)):
-            raise vlib.ToolError(f"Python mirror of Shapes.tla disagrees with TLC on {sig_text(ops, rec['uq'], rec['glob'])}")
-        key = str(i)
-        items.append((key, ops, rec["uq"], rec["glob"], exp))
-        pred[key] = (norm(expected_steps(ops, [e["ce"] for e in rec["log"]], rec["cfinal"])),
-                     norm(expected_steps(ops, [e["ue"] for e in rec["log"]], rec["ufinal"])),
-                     next((e["tag"] for e in rec["log"] if e["tag"]), ""))
-    flawless = {k for k in pred if pred[k][0] == norm(items[int(k)][4]) and pred[k][1] == norm(items[int(k)][4])}
-    gc_slice = {k for k in flawless if int(k) % conf["gc_every"] == vlib.seed() % conf["gc_every"]}
-    t0 = time.time()
-    verdicts = runner.judge(items, gc_slice)
-    vlib.log(f"[C06] {len(items)} histories replayed ({runner.replays} runs) in {time.time() - t0:.1f}s")
-
-    nontrivial = hits_total = accesses = 0
-    drift_examples = []
-    unexplained = []
-    known = {}
-    flaw_not_observed = 0
-    for (key, ops, uq, glob, exp), rec in zip(items, recs):
-        kind, on, off, counters = verdicts[key]
-        p_on, p_off, tag = pred[key]
-        if kind is not None:
-            if kind.startswith("gc-") or not tag or norm(on) != p_on or norm(off) != p_off:
-                unexplained.append((key, ops, uq, glob, exp, kind, on, off))
-            else:
-                known.setdefault(tag, []).append((key, ops, uq, glob, exp, kind, on, off))
-            continue
-        if key not in flawless:
-            flaw_not_observed += 1       # the model of the pinned tree predicts a failure the code does not show
-            ck.drift += 1
-            if len(drift_examples) < 5:
-                drift_examples.append(f"{sig_text(ops, uq, glob)}: model predicts flaw {tag or '?'}, the engine agrees with the reference")
-            continue
-        # counters: step 0 is the prelude, step i the i-th operation
-        mutated = nt = False
-        for i, e in enumerate(rec["log"]):
-            c = counters[i + 1] if len(counters) > i + 1 else None
-            if e["op"] in ("G", "S", "N") and c is not None:
-                accesses += 1
-                hits_total += c[0]
-                if c[0] >= 1 and mutated:
-                    nt = True
-                # (a megamorphic site reports neither a hit nor a miss)
-                if c[:2] != [1, 0] if e["hit"] else c[0] != 0:
-                    ck.drift += 1
-                    if len(drift_examples) < 5:
-                        drift_examples.append(f"{sig_text(ops, uq, glob)} @op{i + 1}: model {'hit' if e['hit'] else 'miss'}, "
-                                              f"counters hit/miss/store={c}")
-            if i >= rec["npre"] and e["op"] not in ("G", "N"):
-                mutated = True
-        if nt:
-            nontrivial += 1
-        if int(key) % 997 == 3:
-            ck.sample({"history": sig_text(ops, uq, glob), "reference_trace": exp[1:], "ic_counters": counters[1:]})
-    for d in drift_examples:
+    ck.cov["action_counts"] = tally.actions
+    never = [a for a in BASE_ACTIONS if tally.actions.get(a, 0) == 0]
+    if never:
+        raise vlib.ToolError(f"actions of the mechanism model never taken: {never}")
+    for d in tally.drift_examples:
         vlib.log("MODEL-DRIFT: " + d)
 
     # known findings: explained step by step by the model of the pinned tree
-    for tag in sorted(known):
-        fs = known[tag]
-        key, ops, uq, glob, exp, kind, on, off = min(fs, key=lambda f: (len(f[1]), sig_text(f[1], f[2], f[3])))
-        for _ in fs:
-            ck.failure(FLAWS[tag], {"example": sig_text(ops, uq, glob), "kind": kind, "count": len(fs),
+    for tag in sorted(tally.known):
+        count, (_, text, ops, uq, glob, exp, kind, on, off) = tally.known[tag]
+        for _ in range(count):
+            ck.failure(FLAWS[tag], {"example": text, "kind": kind, "count": count,
                                     "program": [prelude(uq, glob)] + [js_op(o) for o in ops] + ["dump()"],
                                     "reference": exp, "caches_on": on, "caches_off": off})
-    ck.cov["known_flaw_histories"] = {FLAWS[t]: len(known[t]) for t in sorted(known)}
+    ck.cov["known_flaw_histories"] = {FLAWS[t]: tally.known[t][0] for t in sorted(tally.known)}
 
     # anything else: confirm, shrink, report
+    unexplained = tally.unexplained
     if unexplained:
-        again = runner.judge([(f[0], f[1], f[2], f[3], f[4]) for f in unexplained])
-        for f in unexplained:
-            if again[f[0]][0] != f[5] and not f[5].startswith("gc-"):
-                raise vlib.ToolError(f"non-reproducible result on {sig_text(f[1], f[2], f[3])}: {f[5]} then {again[f[0]][0]}")
-    t0 = time.time()
-    todo = unexplained[:200]
-    shrunk = shrink_all(runner, [(f[1], f[2], f[3], f[5][3:] if f[5].startswith("gc-") else f[5]) for f in todo])
-    if unexplained:
-        vlib.log(f"[C06] {len(unexplained)} unexplained failing histories, {len(todo)} shrunk in {time.time() - t0:.1f}s")
-    by_sig = {}
-    for f, (s_ops, s_uq, s_glob) in zip(todo, shrunk):
-        sig = f"{f[5]}: {sig_text(s_ops, s_uq, s_glob)}"
-        by_sig.setdefault(sig, (f, s_ops, s_uq, s_glob))
-    if by_sig:
+        again = runner.judge([(str(i), f[0], f[1], f[2], f[3]) for i, f in enumerate(unexplained)])
+        for i, f in enumerate(unexplained):
+            if again[str(i)][0] != f[4] and not f[4].startswith("gc-"):
+                raise vlib.ToolError(f"non-reproducible result on {sig_text(f[0], f[1], f[2])}: {f[4]} then {again[str(i)][0]}")
+        t0 = time.time()
+        shrunk = shrink_all(runner, [(f[0], f[1], f[2], f[4][3:] if f[4].startswith("gc-") else f[4]) for f in unexplained])
+        vlib.log(f"[C06] {tally.n_unexplained} unexplained failing histories, {len(unexplained)} shrunk in {time.time() - t0:.1f}s")
+        by_sig = {}
+        for f, (s_ops, s_uq, s_glob) in zip(unexplained, shrunk):
+            sig = f"{f[4]}: {sig_text(s_ops, s_uq, s_glob)}"
+            by_sig.setdefault(sig, (f, s_ops, s_uq, s_glob))
         res = runner.judge([(sig, d[1], d[2], d[3], expect_for(d[1])) for sig, d in by_sig.items()])
         for sig in sorted(by_sig):
             f, s_ops, s_uq, s_glob = by_sig[sig]
-            ck.failure(sig, {"history": sig_text(f[1], f[2], f[3]), "shrunk": sig_text(s_ops, s_uq, s_glob),
+            ck.failure(sig, {"history": sig_text(f[0], f[1], f[2]), "shrunk": sig_text(s_ops, s_uq, s_glob),
                              "program": [prelude(s_uq, s_glob)] + [js_op(o) for o in s_ops] + ["dump()"],
                              "reference": expect_for(s_ops), "caches_on": res[sig][1], "caches_off": res[sig][2],
-                             "model_prediction_for_original": {"caches_on": pred[f[0]][0], "caches_off": pred[f[0]][1]}})
-    ck.cov.update(states=states, transitions=trans, traces_validated_against_impl=len(recs),
-                  histories_exhaustive=n_exh, evaluations=runner.replays, distinct_nontrivial=nontrivial,
-                  accesses_compared_with_model=accesses, cache_hits_observed=hits_total,
-                  histories_gc_stress=len(gc_slice), unexplained_failures=len(unexplained),
-                  predicted_flaw_not_observed=flaw_not_observed,
+                             "model_prediction_for_original": {"caches_on": f[7][0], "caches_off": f[7][1]}})
+    ck.cov.update(states=states, transitions=trans, traces_validated_against_impl=tally.total,
+                  histories_exhaustive=n_exh, evaluations=runner.replays, distinct_nontrivial=tally.nontrivial,
+                  accesses_compared_with_model=tally.accesses, cache_hits_observed=tally.hits,
+                  histories_gc_stress=tally.gc_runs, unexplained_failures=tally.n_unexplained,
+                  predicted_flaw_not_observed=tally.flaw_not_observed,
                   rule="one replay per canonical history (set-up prefix x free suffix); each run with caches on, caches "
                        "off and (one tenth of the flawless ones) caches on under GC stress; all traces must equal TLC's "
                        "reference trace operation by operation incl. the final object graph; non-trivial = a cache hit "
                        "was observed (hook counter) at an access that follows a mutation of the free suffix")
-    if nontrivial < conf["floor"]:
-        raise vlib.ToolError(f"vacuity guard: only {nontrivial} histories with a cache hit after a mutation (floor {conf['floor']})")
+    if tally.nontrivial < conf["floor"]:
+        raise vlib.ToolError(f"vacuity guard: only {tally.nontrivial} histories with a cache hit after a mutation (floor {conf['floor']})")
     ck.assumptions += ["[[Enumerable]] is not modelled; accessor functions have no side effects besides reporting the call",
                        "hit/miss prediction of InlineCache.tla is compared as MODEL-DRIFT only",
                        "ic_off makes InlineCache::get miss and InlineCache::set a no-op (hook in vm/inline_cache/mod.rs)",
                        "a failing history is a known finding only when caches-on and caches-off traces both equal the "
-                       "traces InlineCache.tla predicts for the pinned tree (flaws F1-F4)"]
+                       "traces InlineCache.tla predicts for the tree's remaining design flaws (F1-F4, selected by probes)"]
     return ck.finish()
 
 
-def check_coverage(recs, ck, required):
-    """Every action (code path) of the mechanism model must have been taken by the emitted behaviours.  (TLC's own
-    -coverage runs out of memory on the recursive operators of this spec, so the counts are taken from the logs
-    the model keeps.)"""
-    names = {"G": "Get", "N": "Name", "S": "Set"}
-    counts = {}
-    for rec in recs:
-        for e in rec["log"]:
-            if e["op"] in names:
-                a = names[e["op"]] + ("Hit" if e["hit"] else "Miss")
-            else:
-                a = {"D": "Define", "X": "Delete", "P": "SetProto", "E": "PreventExt", "F": "Freeze", "W": "Warm"}[e["op"]]
-            counts[a] = counts.get(a, 0) + 1
-    ck.cov["action_counts"] = counts
-    never = [a for a in required if counts.get(a, 0) == 0]
-    if never:
-        raise vlib.ToolError(f"actions of the mechanism model never taken: {never}")
